@@ -21,7 +21,7 @@ by_round = {}
 for name in sorted(os.listdir(os.path.join(V, 'seeded'))):
     mm = re.match(r'C\d\d([a-z]?)-', name)
     if mm:
-        rnd = ' abcdefgh'.index(mm.group(1)) if mm.group(1) else 1
+        rnd = ' abcdefghijklmn'.index(mm.group(1)) if mm.group(1) else 1
         m = json.load(open(os.path.join(V, 'seeded', name, 'meta.json')))
         first_missed = 'first run' in (m.get('history') or '') or \
             'was missed' in (m.get('history') or '')
